@@ -42,6 +42,7 @@ func propC03(c *Ctx) {
 	c.ruleEarlySuccess("C03-EARLY-SUCCESS")
 	c.ruleDeadErrorStores("C03-DEAD-ERROR-STORE")
 	c.ruleTypedNilError("C03-TYPED-NIL-ERROR")
+	c.ruleKindVisitedAll("C03-KIND-VISITED-ALL")
 }
 
 // orderedMapType: is t (pointer to) one of the generated ordered maps (struct with data map + order slice)?
